@@ -5,12 +5,13 @@
 From TX Require Import Base.Val Model.Domain.
 Local Open Scope N_scope.
 
-(* case = [ [dfix; atomic_incr; now] ; threads ; sched ; reg ; cloud ; obs ]
+(* case = [ [dfix; atomic_incr; now; cfix] ; threads ; sched ; reg ; cloud ; obs ]
    thread = [ client ; ops ; faults ; results ]
    op = [0; sub; base; tgt] | [1; is_mine; k_or_id] | [2; k; st; exp; tgt] | [3; host; now] | [4]
    result = [kind; a; b; c; d]   0 created id | 1 deleted | 2 updated | 3 routed from_repo id client tgt | 4 reset | 5 error code
    legacy entry = [name; id; client; tgt; active; revoked; exp]
-   obs = [ idx [[name; id]..] ; recs [[id; name; client; tgt; st; exp]..] ; lists [[client; [ids]]..] ; guards [ids] ; next ; finals [[name; result]..] ] *)
+   obs = [ idx [[name; id]..] ; recs [[id; name; client; tgt; st; exp]..] ; lists [[client; [ids]]..] ; guards [ids] ; next ; finals [[name; result]..] ;
+           counter_has_deadline ] *)
 
 Definition dec_status (v : tval) : status :=
   match vn v with 0 => StActive | 1 => StInactive | _ => StExpired end.
@@ -57,7 +58,7 @@ Definition enc_res (r : res) : tval :=
 
 Definition model_run (v : tval) : shared * list thr :=
   let fl := vnth 0 v in
-  drun (vbool (vnth 0 fl)) (vbool (vnth 1 fl))
+  drun (vbool (vnth 0 fl)) (vbool (vnth 1 fl)) (vbool (vnth 3 fl))
        (tbl (map dec_legacy (vl (vnth 3 v)))) (tbl (map dec_legacy (vl (vnth 4 v))))
        empty_store (map dec_thread (vl (vnth 1 v))) (map vnat (vl (vnth 2 v))).
 
@@ -105,6 +106,7 @@ Definition check (v : tval) : bool :=
                 (match find (fun e => N.eqb (vn (vnth 0 e)) c) o_lists with Some e => map vn (vl (vnth 1 e)) | None => [] end)) clients
   && forallb (fun i => Bool.eqb (rguard s i) (existsb (N.eqb i) o_guards)) ids
   && N.eqb (next s) o_next
+  && Bool.eqb (cexists s && cttl s) (vbool (vnth 6 obs))
   (* quiescent lookups *)
   && forallb (fun e => res_matches (lookup_now reg cloud s (vb (vnth 0 e)) (vn (vnth 2 fl))) (vnth 1 e))
              (vl (vnth 5 obs)).
